@@ -285,6 +285,19 @@ class Inliner:
                 expanded = self._expand(inner[0], nested_sink, caller_names, level)
                 if expanded is not None:
                     return expanded
+            # `_helper(...).method(simple args)`: the helper call is the receiver and is evaluated first anyway
+            if isinstance(outer.func, ast.Attribute) and isinstance(outer.func.value, ast.Call) \
+                    and self._callee(outer.func.value) is not None \
+                    and all(_simple(a) for a in list(outer.args) + [k.value for k in outer.keywords]):
+                receiver_sink = sink
+
+                def method_sink(value, origin):
+                    new_call = clone(outer)
+                    new_call.func.value = value if value is not None else ast.Constant(value=None)
+                    return receiver_sink(new_call, origin)
+                expanded = self._expand(outer.func.value, method_sink, caller_names, level)
+                if expanded is not None:
+                    return expanded
         # recurse into compound statements
         for field in ("body", "orelse", "finalbody"):
             block = getattr(stmt, field, None)
